@@ -274,8 +274,21 @@ func H07PathFromEdge(pred *ssa.BasicBlock, succ int, to ssa.Instruction, effect 
 	return s.path, ok
 }
 
-// h07flags: boolean phis with the constant they hold on the current path.
-type h07flags map[*ssa.Phi]bool
+// h07flags: flag variables (phis over boolean or integer/enum constants) with the constant they hold on the
+// current path.
+type h07flags map[*ssa.Phi]constant.Value
+
+func h07flagConst(v ssa.Value) (constant.Value, bool) {
+	c, ok := v.(*ssa.Const)
+	if !ok || c.Value == nil {
+		return nil, false
+	}
+	switch c.Value.Kind() {
+	case constant.Bool, constant.Int:
+		return c.Value, true
+	}
+	return nil, false
+}
 
 // over returns the flags after taking edge b → b.Succs[succ].
 func (f h07flags) over(b *ssa.BasicBlock, succ int) h07flags {
@@ -305,8 +318,9 @@ func (f h07flags) over(b *ssa.BasicBlock, succ int) h07flags {
 		return out
 	}
 	type upd struct {
-		p     *ssa.Phi
-		v, ok bool
+		p  *ssa.Phi
+		v  constant.Value
+		ok bool
 	}
 	var ups []upd
 	for _, in := range s.Instrs {
@@ -320,9 +334,7 @@ func (f h07flags) over(b *ssa.BasicBlock, succ int) h07flags {
 		u := upd{p: p}
 		switch e := p.Edges[slot].(type) {
 		case *ssa.Const:
-			if e.Value != nil && e.Value.Kind() == constant.Bool {
-				u.v, u.ok = constant.BoolVal(e.Value), true
-			}
+			u.v, u.ok = h07flagConst(e)
 		case *ssa.Phi:
 			u.v, u.ok = f[e]
 		}
@@ -338,6 +350,55 @@ func (f h07flags) over(b *ssa.BasicBlock, succ int) h07flags {
 	return out
 }
 
+// H07FlagCond decodes a branch condition over a flag variable: `flag`, `!flag`, `flag == K`, `flag != K`
+// (K a boolean or integer constant, in any nesting of negations). want is the constant the flag must equal
+// for the condition to be true when eq is true (must differ from it when eq is false).
+func H07FlagCond(cond ssa.Value) (p *ssa.Phi, want constant.Value, eq bool, ok bool) {
+	eq = true
+	for i := 0; i < 6; i++ {
+		switch x := cond.(type) {
+		case *ssa.UnOp:
+			if x.Op != token.NOT {
+				return nil, nil, false, false
+			}
+			cond, eq = x.X, !eq
+			continue
+		case *ssa.BinOp:
+			if x.Op != token.EQL && x.Op != token.NEQ {
+				return nil, nil, false, false
+			}
+			v, k := x.X, x.Y
+			if _, isC := v.(*ssa.Const); isC {
+				v, k = x.Y, x.X
+			}
+			c, isC := h07flagConst(k)
+			if !isC {
+				return nil, nil, false, false
+			}
+			if x.Op == token.NEQ {
+				eq = !eq
+			}
+			if c.Kind() == constant.Bool {
+				// b == true / b == false: keep decoding b (it may be negated again)
+				if !constant.BoolVal(c) {
+					eq = !eq
+				}
+				cond = v
+				continue
+			}
+			ph, isPhi := v.(*ssa.Phi)
+			if !isPhi {
+				return nil, nil, false, false
+			}
+			return ph, c, eq, true
+		case *ssa.Phi:
+			return x, constant.MakeBool(true), eq, true
+		}
+		break
+	}
+	return nil, nil, false, false
+}
+
 // decides: the branch ending b is decided by a flag; returns the only feasible successor index.
 func (f h07flags) decides(b *ssa.BasicBlock) (int, bool) {
 	if len(b.Instrs) == 0 || len(f) == 0 {
@@ -347,36 +408,15 @@ func (f h07flags) decides(b *ssa.BasicBlock) (int, bool) {
 	if !ok {
 		return 0, false
 	}
-	cond, neg := iff.Cond, false
-	for i := 0; i < 4; i++ {
-		if u, ok := cond.(*ssa.UnOp); ok && u.Op == token.NOT {
-			cond, neg = u.X, !neg
-			continue
-		}
-		if bin, ok := cond.(*ssa.BinOp); ok && (bin.Op == token.EQL || bin.Op == token.NEQ) {
-			x, k := bin.X, bin.Y
-			if _, isC := x.(*ssa.Const); isC {
-				x, k = bin.Y, bin.X
-			}
-			if c, isC := k.(*ssa.Const); isC && c.Value != nil && c.Value.Kind() == constant.Bool {
-				if constant.BoolVal(c.Value) == (bin.Op == token.NEQ) {
-					neg = !neg
-				}
-				cond = x
-				continue
-			}
-		}
-		break
-	}
-	p, ok := cond.(*ssa.Phi)
+	p, want, eq, ok := H07FlagCond(iff.Cond)
 	if !ok {
 		return 0, false
 	}
 	v, known := f[p]
-	if !known {
+	if !known || v.Kind() != want.Kind() {
 		return 0, false
 	}
-	if v != neg {
+	if constant.Compare(v, token.EQL, want) == eq {
 		return 0, true
 	}
 	return 1, true
@@ -684,11 +724,15 @@ func H07NewIndex(pkgs ...*ssa.Package) *H07Index {
 					x.callers[Orig(f)] = append(x.callers[Orig(f)], ci)
 				}
 			}
+			_, isMakeClosure := in.(*ssa.MakeClosure)
 			for _, op := range Operands(in) {
 				switch o := op.(type) {
 				case *ssa.Function:
 					if isCall && ci.Common().Value == op {
 						continue
+					}
+					if isMakeClosure {
+						continue // the closure value's own code pointer; what counts is how the closure value is used
 					}
 					x.taken[Orig(o)] = true
 				case *ssa.MakeClosure:
